@@ -84,11 +84,54 @@ type c3inst struct {
 	args []c3arg
 	// positions in the row's flag-keyword list (`F<i>,<i>…`: nuw nsw / exact / volatile / the fast-math flags), in the order written
 	flags []int
+	// continuation lines (fourth field of the descriptor): `S…` the cases of a switch, `D<n>~<u>` the destinations of an invoke,
+	// `C<0|1>&c<ty>=<op>&f<ty>=<op>…` cleanup flag and clauses of a landingpad
+	cases   []c3case
+	dests   []c3ident
+	cleanup bool
+	clauses []c3case
+}
+
+type c3case struct {
+	ty     types.Type
+	op     c3operand
+	lab    c3ident
+	filter bool
 }
 
 func c3Inst(named map[string]*types.StructType, s string) c3inst {
-	f := strings.SplitN(s, ":", 3)
+	f := strings.SplitN(s, ":", 4)
 	var in c3inst
+	if len(f) == 4 {
+		x := f[3]
+		switch x[0] {
+		case 'S':
+			if x != "S-" {
+				for _, cs := range strings.Split(x[1:], "&") {
+					g := strings.SplitN(cs, "~", 2)
+					var c c3case
+					c.ty, c.op = c3TyOperand(named, g[0])
+					c.lab = c3Ident(g[1])
+					in.cases = append(in.cases, c)
+				}
+			}
+		case 'D':
+			g := strings.SplitN(x[1:], "~", 2)
+			in.dests = []c3ident{c3Ident(g[0]), c3Ident(g[1])}
+		case 'C':
+			in.cleanup = x[1] == '1'
+			if len(x) > 2 {
+				for _, cs := range strings.Split(x[3:], "&") {
+					var c c3case
+					c.filter = cs[0] == 'f'
+					c.ty, c.op = c3TyOperand(named, cs[1:])
+					in.clauses = append(in.clauses, c)
+				}
+			}
+		default:
+			panic("harness: bad continuation descriptor " + x)
+		}
+	}
 	if f[0] != "_" {
 		i := c3Ident(f[0])
 		in.res = &i
@@ -446,6 +489,18 @@ func core3Prepare(named map[string]*types.StructType, a []string) (*ir.Func, fun
 					c.Typ = in.args[0].ty
 				}
 				obj = c
+			case in.row == 82:
+				obj = &ir.TermSwitch{}
+			case in.row == 83:
+				obj = &ir.TermInvoke{Typ: types.Void}
+			case in.row == 84:
+				obj = &ir.TermInvoke{Typ: in.args[0].ty}
+			case in.row == 85:
+				obj = &ir.InstLandingPad{ResultType: in.args[0].ty, Cleanup: in.cleanup}
+			case in.row == 86:
+				obj = &ir.TermResume{}
+			case in.row == 87:
+				obj = &ir.InstVAArg{ArgType: in.args[1].ty}
 			default:
 				panic("harness: bad row")
 			}
@@ -533,6 +588,33 @@ func core3Prepare(named map[string]*types.StructType, a []string) (*ir.Func, fun
 			case *ir.TermCondBr:
 				x.Cond, x.TargetTrue, x.TargetFalse = operand(types.I1, as[0].op), block(as[1].lab), block(as[2].lab)
 			case *ir.TermUnreachable:
+			case *ir.TermSwitch:
+				x.X, x.TargetDefault = operand(as[0].ty, as[0].op), block(as[1].lab)
+				for _, c := range p.in.cases {
+					x.Cases = append(x.Cases, ir.NewCase(operand(c.ty, c.op).(constant.Constant), block(c.lab)))
+				}
+			case *ir.TermInvoke:
+				k := 0
+				if p.in.row == 84 {
+					k = 1
+				}
+				x.Invokee = operand(nil, as[k].op)
+				for _, ix := range as[k+1].ixs {
+					x.Args = append(x.Args, operand(ix.ty, ix.op))
+				}
+				x.NormalRetTarget, x.ExceptionRetTarget = block(p.in.dests[0]), block(p.in.dests[1])
+			case *ir.InstLandingPad:
+				for _, c := range p.in.clauses {
+					ct := enum.ClauseTypeCatch
+					if c.filter {
+						ct = enum.ClauseTypeFilter
+					}
+					x.Clauses = append(x.Clauses, ir.NewClause(ct, operand(c.ty, c.op)))
+				}
+			case *ir.TermResume:
+				x.X = operand(as[0].ty, as[0].op)
+			case *ir.InstVAArg:
+				x.ArgList = operand(as[0].ty, as[0].op)
 			case *ir.InstPhi:
 				for _, inc := range as[1].incs {
 					x.Incs = append(x.Incs, &ir.Incoming{X: operand(as[0].ty, inc.op), Pred: block(inc.lab)})
